@@ -391,7 +391,8 @@ def run(chk):
                             f"every point of the {'x'.join([str(m)] * d)} product grid exactly once")
         return f"{n} stored points == the {'x'.join([str(m)] * d)} product grid, coordinate i in column i"
     for cname in ("CubicMeshPDEStatio", "CubicMeshPDENonStatio"):
-        for d, m in ((2, 2), (2, 3), (3, 2), (3, 3)):
+        # (counts whose d-th root is not exact in floating point included: 64 ** (1/3) == 3.9999999999999996, 125 ** (1/3) == 4.999...)
+        for d, m in ((2, 2), (2, 3), (2, 7), (3, 2), (3, 3), (3, 4), (3, 5), (4, 2), (4, 3)):
             chk.run("C08.R4", f"{MOD}:{cname}.generate_data[{d}D grid table]", {"method": "grid", "dim": d, "points_per_axis": m},
                     (lambda d=d, m=m, cname=cname: go_grid_table(d, m, cname)), construct=f"grid table {cname}")
 
